@@ -128,7 +128,8 @@ static void leaf_regs(uint32_t leaf, uint32_t subleaf, uint32_t r[4])
         r[3] = (j & ~(1u << 26)) | ((uint32_t)M.sse2 << 26);
         break;
     case 7:
-        if (subleaf == 0) { r[0] = 1; r[1] = (j & ~(1u << 5)) | ((uint32_t)M.avx2 << 5); }
+        /* EAX of sub-leaf 0 is the highest sub-leaf: 0 on the many CPUs that have sub-leaf 0 only (then sub-leaf 1 reads as zeros), 1 otherwise */
+        if (subleaf == 0) { r[0] = M.l7sub1 ? 1 : 0; r[1] = (j & ~(1u << 5)) | ((uint32_t)M.avx2 << 5); }
         else { r[0] = r[1] = r[2] = r[3] = M.l7sub1; }
         break;
     default: break;
